@@ -457,7 +457,10 @@ class WebSocket:
                     return self.cont_frame.extract(frame)
 
             elif frame.opcode == ABNF.OPCODE_CLOSE:
-                self.send_close()
+                # RFC 6455 section 5.5.1: answer a close frame only if we
+                # have not already sent one ourselves.
+                if self.connected:
+                    self.send_close()
                 return frame.opcode, frame
             elif frame.opcode == ABNF.OPCODE_PING:
                 if len(frame.data) < 126:
